@@ -100,7 +100,7 @@ def wMsgs (l : List CMsg) : Nat := (l.map wMsg).sum
 /-- packets a send state may still cause to be emitted without the application doing anything -/
 def phiS : St → Nat
   | .closed => 0
-  | .closePending => 1
+  | .closePending => 2
   | .eof => 1
   | .eofPending => 2
   | .opn => 2
